@@ -109,6 +109,10 @@ pub struct Program {
   pub source_map: Option<(u8, u8)>,
   /// line ending used by statement terminators: 0 LF, 1 CRLF
   pub eol: u8,
+  /// the module consists of the (optional) shebang and the head comments
+  /// only: no statement for them to lead, no pieces, no source map
+  #[serde(default)]
+  pub comments_only: bool,
 }
 
 pub const SPECS: &[&str] = &[
@@ -790,7 +794,14 @@ pub fn build(p: &Program) -> Built {
       }
     }
   }
-  // at least one statement so that the head comments lead something
+  if p.comments_only {
+    return Built {
+      text: b.out,
+      expected: b.exp,
+      pragma_comments: b.pragmas,
+    };
+  }
+  // a statement for the head comments to lead
   let cjs = matches!(p.mt, Mt::Cjs | Mt::Cts | Mt::Dcts);
   if p.mt.is_declaration() {
     b.out.push_str(if cjs { "declare const first: number;" } else { "export declare const first: number;" });
@@ -885,13 +896,16 @@ pub fn program_strategy(max_pieces: usize) -> impl Strategy<Value = Program> {
     proptest::collection::vec(piece, 0..=max_pieces),
     proptest::option::weighted(0.3, (0..SPECS.len() as u8, 0..3u8)),
     0..2u8,
+    proptest::bool::weighted(0.06),
   )
-    .prop_map(|(mt, shebang, head, pieces, source_map, eol)| Program {
+    .prop_map(|(mt, shebang, head, pieces, source_map, eol, comments_only)| Program {
       mt,
-      shebang,
+      // half of the comment-only modules start with a shebang
+      shebang: if comments_only { head.len() % 2 == 0 || shebang } else { shebang },
       head,
       pieces,
       source_map,
       eol,
+      comments_only,
     })
 }
